@@ -245,6 +245,12 @@ func cmdCheck(args []string) int {
 		targets = append(targets, c)
 	}
 	workDir := filepath.Join(verifDir, "work", *prop)
+	if r := os.Getenv("VERIF_REPO"); r != "" && r != "/repo" {
+		// runs against a scratch copy (must-fail corpus, seeded changes) keep their
+		// solver files apart from a check of /repo that may run at the same time
+		workDir = filepath.Join(verifDir, "work", fmt.Sprintf("%s.scratch-%d", *prop, os.Getpid()))
+		defer os.RemoveAll(workDir)
+	}
 	os.RemoveAll(workDir)
 	os.MkdirAll(workDir, 0o755)
 
